@@ -1,4 +1,4 @@
-(* U_Handshake.v — correspondence units for the symbolic handshake layer (ids 301-399).
+(* U_Handshake.v — correspondence units for the symbolic handshake layer (ids 301-302 of the block 301-399).
 
    The crypto Section of Model/Handshake.v is instantiated with the IDEAL scheme the harness's
    abstraction function targets: a private key is an integer id, pub = identity on ids, a
@@ -127,22 +127,9 @@ Fixpoint ctx_run (x : sctx) (ops : list V) : list V :=
 Definition u_ctx_ops (v : V) : V :=
   VL (ctx_run {| x_temp := pool_of_V (vnth v 0); x_conns := pool_of_V (vnth v 1) |} (as_list (vnth v 2))).
 
-(* UNIT 303 hs_oracle : [init; token; key(-1 none); tables; type; hmsg] -> the hs_oracle record
-   [parse; version_ok; token; key; reply; temp_token(-1 none)] computed by oracle_of *)
-Definition u_hs_oracle (v : V) : V :=
-  let s0 := hst_of_V (vnth v 0) in
-  let k := as_int (vnth v 2) in
-  let s := s0 <| h_conn := (h_conn s0) <| c_token := as_int (vnth v 1) |>
-                                        <| c_key := if k =? -1 then None else Some k |> |> in
-  let t := tables_of_V (vnth v 3) in
-  let o := oracle_of tsig t_pub t_sign t_verify t_dh t_kdf (T_shello t) (T_chal t) s
-             (ptype_of_Z (as_int (vnth v 4))) (hmsg_of_V (vnth v 5)) in
-  VL [VI (o_parse o); vbool (o_version_ok o); VI (o_token o); VI (o_key o); VB (o_reply o); V_of_oz (o_temp_token o)].
-
 Definition dispatch_handshake (u : Z) (v : V) : option V :=
   match u with
   | 301 => Some (u_hs_run v)
   | 302 => Some (u_ctx_ops v)
-  | 303 => Some (u_hs_oracle v)
   | _ => None
   end.
